@@ -38,6 +38,7 @@ ShapeValue ==
    bool     |-> VLeaf(B(TRUE)),
    strs     |-> VColl(<<VLeaf(S(<<97>>)), VLeaf(I(1)), VLeaf(S(<<97>>))>>),
    empty    |-> VColl(<<>>),
+   one      |-> VColl(<<VLeaf(I(9))>>),
    elem     |-> VLeaf(NameEl(1)),
    detached |-> VLeaf(Detached),
    mixed    |-> VColl(<<VLeaf(NameEl(2)), VLeaf(I(3)), VLeaf(Family1)>>),
@@ -47,7 +48,12 @@ ShapeValue ==
    nilTop   |-> VNil,
    nilIn    |-> VColl(<<VLeaf(I(1)), VNil>>)]
 
-ValidShapes == <<"int", "strs", "elem", "empty", "str", "mixed", "detached", "bool">>
+(* the valid value supplied at position j of a list of length L: every shape occurs in a list whose options all succeed *)
+ValidAt == << <<"int">>,
+              <<"strs", "elem">>,
+              <<"empty", "str", "mixed">>,
+              <<"detached", "bool", "one", "elem">>,
+              <<"one", "empty", "strs", "bool", "mixed">> >>
 BadShapes   == <<"badIn1", "badIn2", "badTop">>
 NilShapes   == <<"nilTop", "nilIn">>
 
@@ -64,9 +70,9 @@ EName(ks, j) ==
 
 EShape(ks, j) ==
   LET L == Len(ks)
-  IN CASE ks[j] = "valid"  -> Pick(ValidShapes, 2 * j + L)
-       [] ks[j] = "dup"    -> Pick(ValidShapes, 2 * j + L + 3)
-       [] ks[j] = "predef" -> Pick(ValidShapes, j + L)
+  IN CASE ks[j] = "valid"  -> ValidAt[L][j]
+       [] ks[j] = "dup"    -> ValidAt[L][(j % L) + 1]      \* another position's value, so an overwrite would show
+       [] ks[j] = "predef" -> ValidAt[L][j]
        [] ks[j] = "unsup"  -> Pick(BadShapes, j + L)
        [] ks[j] = "nil"    -> Pick(NilShapes, j + L)
 
